@@ -368,7 +368,7 @@ Lemma new_layers_spec : forall ls st i q s sl,
     (forall o, In o (snd (new_layers ls st i q s)) -> exists l par, o = ONew i l q None par).
 Proof.
   induction ls as [|l r IH]; intros st i q s sl L ND Hn.
-  - exists (s_ext sl). simpl. repeat split; auto using others_eq_refl.
+  - exists (s_ext sl). simpl. split; [|split; [|split; [|split]]]; auto using others_eq_refl.
     + intros i' x'. destruct ((i' =? i) && N.eqb x' (fst s)) eqn:E; auto.
       apply andb_true_iff in E. destruct E as (Ea & Eb). apply Nat.eqb_eq in Ea; apply N.eqb_eq in Eb; subst.
       pose proof (lookup_some _ _ _ _ L) as (E & _). rewrite <- E. destruct sl; reflexivity.
@@ -385,8 +385,8 @@ Proof.
       replace (l =? l') with false by (symmetry; apply Nat.eqb_neq; intros ->; contradiction).
       rewrite ext_get_filter by (intros ->; contradiction). apply Hn. right; auto. }
     destruct (new_layers r st1 i q s) as [st2 o2] eqn:NL. simpl in *.
-    exists e. repeat split.
-    + intros i' x'. rewrite S1. unfold st1. rewrite slots_upd.
+    exists e. split; [|split; [|split; [|split]]].
+    + intros i' x'. rewrite S1. unfold st1. simpl.
       destruct ((i' =? i) && N.eqb x' (fst s)); reflexivity.
     + eapply others_eq_trans; [apply others_eq_upd | exact O1].
     + intros l' [<-|Il']; auto.
@@ -486,13 +486,30 @@ Qed.
 Lemma bump_eq : forall a pl, set_kids (set_refs pl (s_refs pl + 1)%N) (a :: s_kids pl) = bump a pl.
 Proof. reflexivity. Qed.
 
-Lemma inv_create : forall st tr st1 i h a parent st' ob,
-  Inv None st tr -> hget h (st_handles st) = None ->
+Definition created_state (st st' : state) (i : inst) (a : sid) (h : hid) (parent : option sid) (e : list (nat * nat)) : Prop :=
+  (forall i' x', st_slots st' i' x' =
+     if (i' =? i) && N.eqb x' (fst a) then mkSlot true true (snd a) (st_count st) parent 1%N e []
+     else match parent with
+          | Some p => if (i' =? i) && N.eqb x' (fst p) then bump a (st_slots st i (fst p)) else st_slots st i' x'
+          | None => st_slots st i' x' end) /\
+  st_layers st' = st_layers st /\ st_entries st' = st_entries st /\ st_ene st' = st_ene st /\
+  st_close st' = st_close st /\ st_handles st' = (h, HSpan i a) :: st_handles st /\ st_count st' = S (st_count st) /\
+  st_created st' = (i, a, st_count st) :: st_created st /\
+  st_cpar st' = (st_count st, match parent with Some p => seq_at st i p | None => None end) :: st_cpar st /\
+  st_panicked st' = st_panicked st /\ st_global st' = st_global st /\ st_scoped st' = st_scoped st /\ st_def st' = st_def st.
+
+Lemma create_spec : forall st tr st1 i h a parent st' ob,
+  Inv None st tr ->
   ((parent = None /\ st1 = st) \/
    (exists p pl, parent = Some p /\ lookup st i p = Some pl /\ st1 = upd_slot st i (fst p) (set_refs pl (s_refs pl + 1)%N))) ->
-  create st1 i h a parent [] = (st', ob) -> forallb wf_obs ob = true -> Inv None st' (tr ++ ob).
+  create st1 i h a parent [] = (st', ob) -> forallb wf_obs ob = true ->
+  s_occ (st_slots st i (fst a)) = false /\
+  (s_used (st_slots st i (fst a)) = false \/ (s_gen (st_slots st i (fst a)) < snd a)%N) /\
+  exists e, created_state st st' i a h parent e /\
+            (forall l, l < st_layers st i -> ext_get l e = Some (st_count st)) /\
+            (forall o, In o ob -> exists l par, o = ONew i l (st_count st) None par).
 Proof.
-  intros st tr st1 i h a parent st' ob I Hh HP H W. unfold create in H.
+  intros st tr st1 i h a parent st' ob I HP H W. unfold create in H.
   set (sl := st_slots st1 i (fst a)) in *.
   destruct (alloc_legal sl a) eqn:AL; simpl in H; [|inversion H; subst; simpl in W; discriminate].
   unfold alloc_legal in AL. apply andb_true_iff in AL. destruct AL as (AO & AG). apply negb_true_iff in AO.
@@ -508,6 +525,7 @@ Proof.
   rewrite Hext0 in H.
   set (q := st_count st1) in *.
   assert (Eq : q = st_count st) by (unfold q; destruct HP as [(_ & ->)|(p & pl & _ & _ & ->)]; reflexivity).
+  clearbody q. subst q. set (q := st_count st) in *.
   set (nsl0 := mkSlot true true (snd a) q parent 1%N [] []) in *.
   set (st2' := upd_slot st1 i (fst a) nsl0) in *.
   (* the state before the layers run *)
@@ -522,7 +540,7 @@ Proof.
                st_close st4 = st_close st /\ st_handles st4 = (h, HSpan i a) :: st_handles st /\ st_count st4 = S q /\
                st_created st4 = (i, a, q) :: st_created st /\
                st_cpar st4 = (q, match parent with Some p => seq_at st i p | None => None end) :: st_cpar st /\
-               st_panicked st4 = st_panicked st).
+               st_panicked st4 = st_panicked st /\ st_global st4 = st_global st /\ st_scoped st4 = st_scoped st /\ st_def st4 = st_def st).
   { destruct HP as [(-> & E1)|(p & pl & -> & Lp & E1)].
     - subst st1. unfold st4. simpl. split; [|repeat split].
       unfold lookup. simpl. rewrite Nat.eqb_refl, N.eqb_refl. simpl. rewrite N.eqb_refl. reflexivity.
@@ -533,8 +551,9 @@ Proof.
       { unfold st2'. rewrite lookup_upd_other by (intros X; inversion X; contradiction).
         rewrite E1. rewrite (lookup_upd_shape _ i p pl); [rewrite key_eqb_refl; reflexivity | exact Lp | apply same_shape_refs]. }
       unfold st4. rewrite L2. simpl st_slots. simpl st_layers. simpl st_entries. simpl st_ene. simpl st_close. simpl st_handles.
-      simpl st_count. simpl st_created. simpl st_cpar. simpl st_panicked.
+      simpl st_count. simpl st_created. simpl st_cpar. simpl st_panicked. simpl st_global. simpl st_scoped. simpl st_def.
       rewrite E1. simpl st_created. simpl st_cpar. simpl st_layers. simpl st_entries. simpl st_ene. simpl st_close. simpl st_handles. simpl st_panicked.
+      simpl st_global. simpl st_scoped. simpl st_def.
       split; [|split; [|repeat split]].
       + unfold lookup. simpl. rewrite Nat.eqb_refl.
         replace (N.eqb (fst a) (fst p)) with false by (symmetry; apply N.eqb_neq; auto). simpl.
@@ -549,18 +568,32 @@ Proof.
         match goal with |- match lookup ?S i p with _ => _ end = _ => assert (LS : lookup S i p = Some (bump a pl)) end.
         { rewrite (lookup_upd_shape _ i p _ _ L2); [rewrite key_eqb_refl; reflexivity | unfold same_shape; simpl; auto]. }
         rewrite LS, Lp. reflexivity. }
-  destruct L4 as (La & S4 & F1 & F2 & F3 & F4 & F5 & F6 & F7 & F8 & F9).
+  destruct L4 as (La & S4 & F1 & F2 & F3 & F4 & F5 & F6 & F7 & F8 & F9 & F10 & F11 & F12).
   destruct (new_layers_spec (seq 0 (st_layers st4 i)) st4 i q a nsl0 La (seq_NoDup _ _)) as (e & S5 & O5 & G1 & _ & N5).
   { intros; reflexivity. }
-  destruct (new_layers (seq 0 (st_layers st4 i)) st4 i q a) as [st5 o5] eqn:NL. simpl in S5, O5, N5.
-  inversion H; subst st' ob; clear H. simpl.
-  destruct O5 as (E1 & _ & _ & _ & E5 & E6 & E7 & E8 & E9 & E10 & E11 & E12).
-  rewrite Eq in *.
-  eapply (new_inv st st5 tr i a h parent e o5 I Hvac Hgen); eauto; try congruence.
-  - intros p P. destruct HP as [(X & _)|(p' & pl & X & Lp & _)]; [congruence|]. rewrite X in P; inversion P; subst. apply is_live_true; eauto.
+  match type of H with (let '(_, _) := new_layers (seq 0 ?N) _ _ _ _ in _) = _ => change N with (st_layers st4 i) in H end.
+  destruct (new_layers (seq 0 (st_layers st4 i)) st4 i q a) as [st5 o5] eqn:NL. cbn [fst snd] in S5, O5, N5.
+  inversion H; try subst st'; try subst ob; clear H. simpl.
+  destruct O5 as (E1 & E2 & E3 & E4 & E5 & E6 & E7 & E8 & E9 & E10 & E11 & E12).
+  split; [exact Hvac|]. split; [exact Hgen|]. exists e. split; [|split].
+  - unfold created_state. unfold q in *. split; [|repeat split; congruence].
+    intros i' x'. rewrite S5, S4. destruct ((i' =? i) && N.eqb x' (fst a)); reflexivity.
   - intros l Hl. apply G1. apply in_seq. rewrite F1. lia.
+  - exact N5.
+Qed.
+
+Lemma inv_create : forall st tr st1 i h a parent st' ob,
+  Inv None st tr -> hget h (st_handles st) = None ->
+  ((parent = None /\ st1 = st) \/
+   (exists p pl, parent = Some p /\ lookup st i p = Some pl /\ st1 = upd_slot st i (fst p) (set_refs pl (s_refs pl + 1)%N))) ->
+  create st1 i h a parent [] = (st', ob) -> forallb wf_obs ob = true -> Inv None st' (tr ++ ob).
+Proof.
+  intros st tr st1 i h a parent st' ob I Hh HP H W.
+  destruct (create_spec st tr st1 i h a parent st' ob I HP H W) as (Hvac & Hgen & e & CS & G1 & N5).
+  destruct CS as (S5 & F1 & F2 & F3 & F4 & F5 & F6 & F7 & F8 & F9 & _).
+  eapply (new_inv st st' tr i a h parent e ob I Hvac Hgen); eauto.
+  - intros p P. destruct HP as [(X & _)|(p' & pl & X & Lp & _)]; [congruence|]. rewrite X in P; inversion P; subst. apply is_live_true; eauto.
   - intros o Io. destruct (N5 _ Io) as (l & par & ->). split; simpl; auto.
-  - intros i' x'. rewrite S5, S4. destruct ((i' =? i) && N.eqb x' (fst a)); reflexivity.
 Qed.
 
 Lemma inv_new : forall st tr t h k a st' ob, Inv None st tr -> do_new st t h k a = (st', ob) ->
@@ -570,14 +603,14 @@ Proof.
   destruct (hget h (st_handles st)) eqn:Hh; [inversion H; subst; simpl in W; discriminate|].
   destruct (eff st t false) as [i|] eqn:Ef.
   2:{ inversion H; subst. rewrite app_nil_r. apply inv_add_none_handle; auto. }
-  destruct (resolve_cases st tr i t k I) as [(o1 & -> & Ho)|[(p & pl & o1 & -> & Lp & Ho)|(e & -> & Fn)]].
+  destruct (resolve_cases st tr i t k I) as [(o1 & ER & Ho)|[(p & pl & o1 & ER & Lp & Ho)|(e & ER & Fn)]]; rewrite ER in H.
   - destruct Ho as [->| ->].
-    + eapply inv_create; eauto.
+    + refine (inv_create st tr _ i h a _ st' ob I Hh _ H W). left; auto.
     + unfold create in H. destruct (negb (alloc_legal (st_slots st i (fst a)) a)).
       * inversion H; subst. simpl in W. discriminate.
       * match type of H with (let '(_, _) := ?X in _) = _ => destruct X end. inversion H; subst. simpl in W. discriminate.
   - destruct Ho as [->| ->].
-    + eapply inv_create; eauto. right. eauto.
+    + refine (inv_create st tr _ i h a _ st' ob I Hh _ H W). right. exists p, pl. auto.
     + unfold create in H. match type of H with (if ?B then _ else _) = _ => destruct B end.
       * inversion H; subst. simpl in W. discriminate.
       * match type of H with (let '(_, _) := ?X in _) = _ => destruct X end. inversion H; subst. simpl in W. discriminate.
